@@ -439,11 +439,20 @@ fn case_rule(id: &str, v: &serde_json::Value, ctx: &mut Ctx) -> Option<Out> {
 
     // ---- impl.out ----------------------------------------------------------------------------
     let mut w = begin(id);
-    let rule = match guarded(|| Rule::from_str(text)) {
+    // crate-only extra, stripped by the orchestrator before the line diff: what
+    // Rule::from_str says about the text (the model is tied to Rule::from_value)
+    let fromstr = match guarded(|| Rule::from_str(text)) {
+        None => "panic",
+        Some(Err(_)) => "err",
+        Some(Ok(_)) => "ok",
+    };
+    let extra = format!("(x (fromstr {}))", fromstr);
+    let rule = match guarded(|| Rule::from_value(y.clone())) {
         None => {
             w.head("load");
             w.atom("panic");
             w.close();
+            w.atom(&extra);
             w.close();
             return Some((w.finish(), model));
         }
@@ -451,6 +460,7 @@ fn case_rule(id: &str, v: &serde_json::Value, ctx: &mut Ctx) -> Option<Out> {
             w.head("load");
             w.atom("err");
             w.close();
+            w.atom(&extra);
             w.close();
             return Some((w.finish(), model));
         }
@@ -536,6 +546,7 @@ fn case_rule(id: &str, v: &serde_json::Value, ctx: &mut Ctx) -> Option<Out> {
     if validate {
         validate_part(&mut w, &rule);
     }
+    w.atom(&extra);
     w.close();
     Some((w.finish(), model))
 }
